@@ -61,26 +61,45 @@ Proof.
     specialize (H0 _ Hsub). simpl in H0. discriminate.
 Qed.
 
+Lemma find_attr_nonone t a : forallb (fun av : nat * val => nonone_v (snd av)) t = true -> nonone_v (find_attr t a) = true.
+Proof.
+  induction t as [|[a' v] t IH]; simpl; auto. intros H. apply andb_true_iff in H. destruct H as [Hv Ht].
+  destruct (Nat.eqb a a'); auto.
+Qed.
+Lemma nonone_of_b c : nonone_b c = true -> no_none (case_world c) (c_dom c).
+Proof.
+  unfold nonone_b. intros H. apply andb_true_iff in H. destruct H as [Hw Hd]. split.
+  - intros o a. simpl. induction (c_world c) as [|[[o' k] t] d IH]; simpl; auto.
+    simpl in Hw. apply andb_true_iff in Hw. destruct Hw as [Ht Hrest].
+    destruct (Z.eqb o o'); [apply find_attr_nonone; exact Ht|apply IH; exact Hrest].
+  - intros Hin. apply negb_true_iff in Hd.
+    assert (existsb (Z.eqb 0) (c_dom c) = true) by (apply existsb_exists; exists 0%Z; split; auto). congruence.
+Qed.
+
 (* every case the harness counts as inside F11 is covered by the theorem *)
 Theorem fragment_flag c : in_F c = true ->
+  run_araises (case_cmodel c) (case_world c) (c_T c) (c_pat c) (c_dom c) = false /\
   run_raises (case_cmodel c) (case_world c) (c_T c) (c_pat c) (c_dom c) = false /\
   forall o, In o (run (case_cmodel c) (case_world c) (c_T c) (c_pat c) (c_dom c)) <->
             In o (spec_run (sub (case_cmodel c)) (case_world c) (c_T c) (c_pat c) (c_dom c)).
 Proof.
-  unfold in_F. intros H. apply andb_true_iff in H. destruct H as [H H0]. apply andb_true_iff in H. destruct H as [H Hty].
+  unfold in_F. intros H. apply andb_true_iff in H. destruct H as [H Hnn]. apply andb_true_iff in H. destruct H as [H H0]. apply andb_true_iff in H. destruct H as [H Hty].
   apply andb_true_iff in H. destruct H as [HF Htr].
+  split; [apply no_attr_error; apply nonone_of_b; exact Hnn|].
   split; [apply (no_error _ (case_objcls c)); apply (proj1 (proj2 (fok_mono _ _))); exact HF|].
   apply (match_run_exact (case_cmodel c) (case_objcls c)); auto using sub_trans_of_b, typed_of_b.
 Qed.
 
 (* ... and every case inside the relaxed fragment (finding C11-e allowed) is answered as the relaxed reading says *)
 Theorem fragment_flag_lax c : in_Flax c = true ->
+  run_araises (case_cmodel c) (case_world c) (c_T c) (c_pat c) (c_dom c) = false /\
   run_raises (case_cmodel c) (case_world c) (c_T c) (c_pat c) (c_dom c) = false /\
   forall o, In o (run (case_cmodel c) (case_world c) (c_T c) (c_pat c) (c_dom c)) <->
             In o (lax_run (case_cmodel c) (case_world c) (c_T c) (c_pat c) (c_dom c)).
 Proof.
-  unfold in_Flax. intros H. apply andb_true_iff in H. destruct H as [H H0]. apply andb_true_iff in H. destruct H as [H Hty].
+  unfold in_Flax. intros H. apply andb_true_iff in H. destruct H as [H Hnn]. apply andb_true_iff in H. destruct H as [H H0]. apply andb_true_iff in H. destruct H as [H Hty].
   apply andb_true_iff in H. destruct H as [HF Htr].
+  split; [apply no_attr_error; apply nonone_of_b; exact Hnn|].
   split; [apply (no_error _ (case_objcls c)); exact HF|].
   apply (match_run_lax (case_cmodel c) (case_objcls c)); auto using sub_trans_of_b, typed_of_b.
 Qed.
@@ -90,7 +109,7 @@ Theorem fragment_flag_rows c : in_F c = true ->
   forall r, In r (run_rows (case_cmodel c) (case_world c) (c_rootsel c) (c_T c) (c_pat c) (c_dom c)) <->
             In r (spec_rows (sub (case_cmodel c)) (case_world c) (c_rootsel c) (c_T c) (c_pat c) (c_dom c)).
 Proof.
-  unfold in_F. intros H. apply andb_true_iff in H. destruct H as [H H0]. apply andb_true_iff in H. destruct H as [H Hty].
+  unfold in_F. intros H. apply andb_true_iff in H. destruct H as [H Hnn]. apply andb_true_iff in H. destruct H as [H H0]. apply andb_true_iff in H. destruct H as [H Hty].
   apply andb_true_iff in H. destruct H as [HF Htr].
   apply (match_rows_exact (case_cmodel c) (case_objcls c)); auto using sub_trans_of_b, typed_of_b.
 Qed.
